@@ -52,7 +52,7 @@ LINALG = ["det", "slogdet", "inv", "solve", "chol", "eigvalsh", "svdvals", "qr_r
 # symbolic zeros) were generated at top level only while they were open findings; all are repaired, so they are now
 # generated inside cond branches and called / vmapped bodies too
 NESTED_FAIL_OPS = True
-HAZARD = ["hz_sqrt", "hz_pow", "hz_arcsin", "hz_norm"]
+HAZARD = ["hz_sqrt", "hz_pow", "hz_arcsin", "hz_norm", "hz_iota"]
 
 
 def op_class(op: str) -> str:
@@ -557,10 +557,15 @@ class _Body:
         zero under JAX (constant / integer-derived)."""
         if not self.afo:
             return None
+        if self.rng.random() < 0.3:
+            # a float table made by an input-less primitive (iota) inside the function, singular derivative at its 0
+            y = self.pick(lambda v: v["dt"] == F and len(v["sh"]) >= 1)
+            if y is not None:
+                return self.add("hz_iota", [y], {}, F, y["sh"], y["sz"])
         x = self.pick(lambda v: v["dt"] == F and v["sz"])
         if x is None:
             return None
-        op = str(self.rng.choice(HAZARD))
+        op = str(self.rng.choice(HAZARD[:4]))
         if op == "hz_norm":
             return self.add(op, [x], {}, F, (), True)
         return self.add(op, [x], {}, F, x["sh"], True)
@@ -1075,6 +1080,7 @@ def build_fn(spec, consts_np, holder=None):
         "nn_relu": jax.nn.relu, "nn_relu6": jax.nn.relu6,
         "hz_sqrt": lambda x: jnp.sqrt(jnp.abs(x)), "hz_pow": lambda x: jnp.power(jnp.abs(x), 0.5),
         "hz_arcsin": lambda x: jnp.arcsin(jnp.clip(x, -1.0, 1.0)), "hz_norm": lambda x: jnp.linalg.norm(jnp.ravel(x)),
+        "hz_iota": lambda x: x * jnp.sqrt(jnp.arange(x.shape[-1], dtype=f32)),
         "not": jnp.logical_not, "i2f": lambda x: x.astype(f32), "b2f": lambda x: x.astype(f32),
         "b2i": lambda x: x.astype(jnp.int32), "f16_rt": lambda x: x.astype(jnp.float16).astype(f32),
         "bf16_rt": lambda x: x.astype(jnp.bfloat16).astype(f32), "f2i2f": lambda x: (x * 2.0).astype(jnp.int32).astype(f32),
